@@ -47,11 +47,15 @@ pub trait ConnectionState {
     ///
     /// Return the error as an Err variant if it is set in order to allow using ? in the calling function
     fn get_conn_error(&self) -> Option<ErrorOrigin> {
+        #[cfg(h3_verif)]
+        verif::yield_point("cell:get");
         self.shared_state().connection_error.get().cloned()
     }
 
     /// tries to set the connection error
     fn set_conn_error(&self, error: ErrorOrigin) -> ErrorOrigin {
+        #[cfg(h3_verif)]
+        verif::yield_point("cell:set");
         let err = self
             .shared_state()
             .connection_error
@@ -61,14 +65,8 @@ pub trait ConnectionState {
 
     /// set the connection error and wake the connection
     fn set_conn_error_and_wake<T: Into<ErrorOrigin>>(&self, error: T) -> ErrorOrigin {
-        #[cfg(h3_verif)]
-        verif::yield_point("s:before_store");
         let err = self.set_conn_error(error.into());
-        #[cfg(h3_verif)]
-        verif::yield_point("s:stored");
         self.waker().wake();
-        #[cfg(h3_verif)]
-        verif::yield_point("s:woke");
         err
     }
 
@@ -104,6 +102,8 @@ pub trait ConnectionState {
 
     /// Returns the waker for the connection
     fn waker(&self) -> &AtomicWaker {
+        #[cfg(h3_verif)]
+        verif::yield_point("waker");
         &self.shared_state().waker
     }
 }
